@@ -55,6 +55,7 @@ func skFixed(o skOpts, name string, exp uint32) num.Amount {
 }
 
 type skOpts struct {
+	noExtras     bool // thorough tier: without the larger alternatives (fixed charges, percentage advance alone, finer fixed amounts)
 	nonzeroFixed bool // fixed amounts are not zero
 	rule       cbc.Key  // rounding rule
 	cur        currency.Code
@@ -97,7 +98,7 @@ func skLine(name string, o skOpts, curExp uint32, first bool) *Line {
 		Taxes:    tax.Set{{Category: "VAT", Percent: &p21}},
 	}
 	fexp := func() uint32 { // precision of a supplied fixed amount (chosen only where one is present)
-		if !o.fixedAtCur && vrt.Thorough() {
+		if !o.fixedAtCur && vrt.Thorough() && !o.noExtras {
 			return curExp + 2*uint32(vrt.Choice(name+".fexp", 2))
 		}
 		return curExp
@@ -111,7 +112,7 @@ func skLine(name string, o skOpts, curExp uint32, first bool) *Line {
 	}
 	if o.rich {
 		nc := 3 // quick: none / percent / rate x quantity; thorough adds a fixed amount
-		if vrt.Thorough() {
+		if vrt.Thorough() && !o.noExtras {
 			nc = 4
 		}
 		switch vrt.Choice(name+".charge", nc) {
@@ -158,7 +159,7 @@ func skInvoice(o skOpts) *Invoice {
 	}
 	if o.rich {
 		ndc := 2 // quick: none / percent; thorough adds a fixed amount
-		if vrt.Thorough() {
+		if vrt.Thorough() && !o.noExtras {
 			ndc = 3
 		}
 		switch vrt.Choice("doc.charge", ndc) {
@@ -169,7 +170,7 @@ func skInvoice(o skOpts) *Invoice {
 			inv.Charges = []*Charge{{Amount: skFixed(o, "doc.charge.amount", fexp()), Taxes: vat()}}
 		}
 		na := 3 // quick: none / fixed / percent with a percentage due date; thorough adds percent alone
-		if vrt.Thorough() {
+		if vrt.Thorough() && !o.noExtras {
 			na = 4
 		}
 		switch vrt.Choice("advance", na) {
